@@ -193,6 +193,25 @@ func runC04(c *Ctx) {
 	}
 	c.R.Floor("R-C04-2", 3)
 
+	// R-C04-2 (transmit side): the message handed to WriteTo is built, from the live state, in the same activation as the write
+	nW := 0
+	for _, s := range an.FindCalls(c.srcFuncs(), func(cc *ssa.CallCommon) bool { return an.CallIs(cc, PkgSystem, "Conn", "WriteTo") }) {
+		nW++
+		args := s.Common().Args
+		msg := c.XO.Of(args[len(args)-3])
+		okFresh := true
+		for _, alt := range msg.Alts() {
+			b, idx := stripExtract(alt)
+			if !(idx == 0 && (exprCallIs(b, PkgCorerad, "Advertiser", "buildRA") || exprCallIs(b, PkgConfig, "Interface", "RouterAdvertisement"))) {
+				okFresh = false
+			}
+		}
+		c.R.Check(okFresh, "R-C04-2", c.fname(s.Fn)+":transmits-fresh-ra", c.fname(s.Fn), c.pos(s.Pos()), "WriteTo("+msg.String()+", …)",
+			"the RA is generated (forwarding read included) in the same activation that transmits it — never a parameter, field, channel value or captured variable built earlier",
+			"an RA built before a delay is transmitted after forwarding was switched off: it still advertises a default route")
+	}
+	c.R.Check(nW >= 1, "R-C04-2", "module:transmit-sites", "", "", fmt.Sprintf("%d WriteTo site(s)", nW), ">= 1", "anchor-missing")
+
 	// R-C04-3 nothing caches the forwarding state
 	nSt := 0
 	for _, f := range c.srcFuncs() {
